@@ -19,6 +19,7 @@ DESIGN = {
 FAMILIES = [   # name, cfg, histories sampled in the quick tier (simulation), thorough: None = all of them / n = sampled, what it is
     ("main", "Gen_LocalCache_main.cfg", 64, None, "file path / :path / zone name / POSIX rule / empty / garbage, depth <= 5, on the host"),
     ("vals", "Gen_LocalCache_vals.cfg", 10, None, ":name, fixed-offset file, unreadable paths, a file that is not TZif, :rule; depth <= 3"),
+    ("pad", "Gen_LocalCache_pad.cfg", 12, None, "a rule X vs :X (same text behind a colon names a file that does not exist), blank-padded file paths, a lone blank; depth <= 3"),
     ("band", "Gen_LocalCache_band.cfg", 10, None, "with a 1.0 s wait (inside the fuzzy band: either outcome), depth <= 4"),
     ("deep", "Gen_LocalCache_deep.cfg", 16, 2000, "two files + unset, waits 0.6 s / 1.25 s, main thread only, length 6..8 (A-B-A changes, several windows); always sampled"),
     ("ns", "Gen_LocalCache_ns.cfg", 16, None, "private mount namespace: non-UTC system zone, /etc/localtime replaced (Touch), depth <= 5"),
@@ -32,6 +33,8 @@ PINNED = {
         [("setenv", "garbage"), ("conv", "utc", "main"), ("unset",), ("conv", "local", "main"), ("touch",), ("wait", 1250), ("conv", "utc", "main"), ("conv", "utc", "new")],
         [("setenv", "colonMissing"), ("conv", "local", "new"), ("setenv", "absA"), ("conv", "utc", "main"), ("wait", 200), ("unset",), ("conv", "utc", "main"), ("wait", 1250), ("conv", "local", "main")],
         [("conv", "local", "main"), ("wait", 1250), ("touch",), ("conv", "local", "main"), ("wait", 200), ("conv", "utc", "main"), ("wait", 1000), ("conv", "utc", "main")],
+        # values that name nothing fall back to the (non-UTC) system zone: a lone blank, a blank-padded path, :rule-text
+        [("setenv", "blank"), ("conv", "utc", "new"), ("setenv", "preAbsA"), ("conv", "local", "new"), ("setenv", "colonFullRule"), ("conv", "utc", "new"), ("setenv", "postAbsA"), ("conv", "utc", "main")],
     ],
     "nosys": [
         [("conv", "utc", "main"), ("setenv", "garbage"), ("conv", "utc", "new"), ("setenv", "absA"), ("wait", 1250), ("conv", "local", "main"), ("unset",), ("conv", "local", "new")],
@@ -47,6 +50,10 @@ PINNED = {
         # valid X -> unusable value -> the very same X again, one second apart each: the return to X must be honoured
         [("setenv", "rule"), ("conv", "utc", "main"), ("wait", 1250), ("setenv", "garbage"), ("conv", "utc", "main"), ("wait", 1250), ("setenv", "rule"), ("wait", 1250), ("conv", "utc", "main"), ("conv", "local", "main")],
         [("setenv", "name"), ("conv", "local", "main"), ("wait", 1250), ("setenv", "colonMissing"), ("conv", "local", "main"), ("wait", 1250), ("setenv", "name"), ("wait", 1250), ("conv", "local", "main"), ("conv", "utc", "new")],
+        # X <-> :X for a POSIX rule X, and a path <-> the same path behind a blank: different strings naming different sources, a second apart
+        [("setenv", "rule"), ("conv", "utc", "main"), ("setenv", "colonFullRule"), ("wait", 1250), ("conv", "utc", "main"), ("setenv", "rule"), ("wait", 1250), ("conv", "local", "main"), ("conv", "utc", "new")],
+        [("setenv", "absA"), ("conv", "utc", "main"), ("setenv", "preAbsA"), ("wait", 1250), ("conv", "utc", "main"), ("setenv", "absA"), ("wait", 1250), ("conv", "local", "main"), ("setenv", "postAbsA"), ("wait", 1250),
+         ("conv", "local", "main"), ("setenv", "preColonB"), ("conv", "utc", "new"), ("setenv", "blank"), ("conv", "utc", "new")],
         # every kind of TZ value once, each read by a fresh thread (the resolution order of the statement, one clause at a time)
         [("setenv", "colonName"), ("conv", "utc", "new"), ("setenv", "name"), ("conv", "local", "new"), ("setenv", "fixedF"), ("conv", "utc", "new"), ("setenv", "colonB"), ("conv", "local", "new"),
          ("setenv", "absA"), ("conv", "utc", "new"), ("setenv", "rule"), ("conv", "utc", "new")],
@@ -151,7 +158,8 @@ def build_world(world, root):
 
 def tz_string(world, zdir, key):
     v = world["vals"][key]
-    return (":" if v["colon"] else "") + ((zdir + "/") if v["abs"] else "") + v["text"]
+    t = (":" if v["colon"] else "") + ((zdir + "/") if v["abs"] else "") + v["text"]
+    return (" " + t) if v.get("pad") == "pre" else (t + " ") if v.get("pad") == "post" else t
 
 
 def host_is_utc():
